@@ -1,9 +1,10 @@
-\* strict design: 3 callers x 2 keys, 2 API calls each; safety, deadlock, liveness
+\* strict design: 3 callers x 2 keys, 2 API calls each; safety, deadlock, liveness (3.35 M states)
 SPECIFICATION Spec
 CONSTANTS
   Procs = {"p1", "p2", "p3"}
   Keys = {"k1", "k2"}
   Budget = 2
+  MaxTotal = 99
   Dev = {}
 INVARIANTS TypeOK MutualExclusion HolderIsHead QueueConsistent HeadToldToGo NoResidue QueuePresent
 PROPERTIES GrantFifo ForeignUnlockHarmless ReleasedOnlyByOwnerOrTtl NoStuckWaiter
